@@ -132,10 +132,11 @@ func runCase(r *mon.Run, c gen.EdCase) {
 		vo *ed25519.VerifyOptions
 		fl ref.Flags
 	}{
-		"Default":    {ed25519.VerifyOptionsDefault, ref.Flags{SmallR: true}},
-		"StdLib":     {ed25519.VerifyOptionsStdLib, ref.Flags{SmallA: true, SmallR: true, NonCanonA: true, Cofactorless: true}},
-		"FIPS_186_5": {ed25519.VerifyOptionsFIPS_186_5, ref.Flags{SmallA: true, SmallR: true}},
-		"ZIP_215":    {ed25519.VerifyOptionsZIP_215, ref.Flags{SmallA: true, SmallR: true, NonCanonA: true, NonCanonR: true}},
+		"nil (documented: the default set)": {nil, ref.Flags{SmallR: true}},
+		"Default":                           {ed25519.VerifyOptionsDefault, ref.Flags{SmallR: true}},
+		"StdLib":                            {ed25519.VerifyOptionsStdLib, ref.Flags{SmallA: true, SmallR: true, NonCanonA: true, Cofactorless: true}},
+		"FIPS_186_5":                        {ed25519.VerifyOptionsFIPS_186_5, ref.Flags{SmallA: true, SmallR: true}},
+		"ZIP_215":                           {ed25519.VerifyOptionsZIP_215, ref.Flags{SmallA: true, SmallR: true, NonCanonA: true, NonCanonR: true}},
 	} {
 		o := libOpts(0, c)
 		o.Verify = p.vo
@@ -143,6 +144,21 @@ func runCase(r *mon.Run, c gen.EdCase) {
 		pan, _ := mon.Try(func() { got = ed25519.VerifyWithOptions(pk, msg, sig, o) })
 		r.Eval(nil)
 		want := facts.Verify(p.fl)
+		// the same option value through the expanded-key and caching entry points
+		if len(pk) == 32 && !pan {
+			var g2, g3 bool
+			p2, p3 := false, false
+			if expErr == nil {
+				p2, _ = mon.Try(func() { g2 = ed25519.VerifyExpandedWithOptions(exp, msg, sig, o) })
+			} else {
+				g2 = want
+			}
+			p3, _ = mon.Try(func() { g3 = cv.VerifyWithOptions(pk, msg, sig, o) })
+			r.EvalN(2)
+			if p2 || p3 || g2 != want || g3 != want {
+				r.Violate("VerifyWithOptions/preset-"+name+"/other-entry-points", fmt.Sprintf("preset %s: expanded=%v cached=%v (panics %v %v) want=%v (%s) family=%s", name, g2, g3, p2, p3, want, facts.Reason(p.fl), c.Fam), c)
+			}
+		}
 		if pan || got != want {
 			r.Violate("VerifyWithOptions/preset-"+name, fmt.Sprintf("preset %s: got=%v panic=%v want=%v (%s) family=%s", name, got, pan, want, facts.Reason(p.fl), c.Fam), c)
 		}
